@@ -48,6 +48,8 @@ type AuthRoute struct {
 	Forward  string      `json:"forward,omitempty"` // behaviour of the auth service
 	CopyHdrs []string    `json:"copy_hdrs,omitempty"`
 	MaxBody  int         `json:"max_body,omitempty"`
+	// Targets > 0: a push route with that many deliver targets instead of a pull route
+	Targets int `json:"targets,omitempty"`
 }
 
 type AuthReq struct {
@@ -189,7 +191,14 @@ func authText(routes []AuthRoute) string {
 			}
 			b.WriteString("  }\n")
 		}
-		fmt.Fprintf(&b, "  pull { path /pull/r%d }\n}\n", i)
+		if r.Targets > 0 {
+			for k := 0; k < r.Targets; k++ {
+				fmt.Fprintf(&b, "  deliver %s {\n  }\n", q(fmt.Sprintf("https://t%d-%d.example.org/h", i, k)))
+			}
+			b.WriteString("}\n")
+		} else {
+			fmt.Fprintf(&b, "  pull { path /pull/r%d }\n}\n", i)
+		}
 	}
 	return b.String()
 }
